@@ -8,7 +8,7 @@ Flow (on top of the generic table flow of tablecheck.py), same shape as fam_fail
      Fixed = TRUE, also with the attachment split in two) which must be clean.
   1. generic flow: table extraction + random chains on the real code, TLC monitor walk, replay, verdict.
 """
-import json, os, shutil, time
+import contextlib, io, json, os, re, shutil, sys, time
 import vcheck
 from vcheck import SPECS, WORK, Infra, log, run_tlc
 from tablecheck import table_check
@@ -91,8 +91,27 @@ def runner(prop, fam, tier, seed, replay=None):
                               note="counterexamples of the protocol as found at the pinned commit; each is executed on the real code as chain shape#cex<i> "
                                    "(a history that violates on the real code is reported through the normal VIOLATION / KNOWN-FINDING path)")
             log("original design: %d counterexample histories (%s)" % (len(cex), "; ".join(",".join(c) for c, _ in cex)))
+        def attempt(f):
+            buf = io.StringIO()
+            with contextlib.redirect_stdout(buf):
+                r = table_check(prop, f, tier, seed, replay)
+            return r, buf.getvalue()
         try:
-            rc = table_check(prop, fam2, tier, seed, replay)
+            rc, said = attempt(fam2)
+            if rc == 2 and not replay and re.search(r" on e2e#\d+ did not reproduce on a fresh object", said):
+                # The end-to-end chains (two started syncers, their own goroutines, real time) are timing-dependent:
+                # something seen there may not show again on a fresh pair, and the generic flow then ends without a
+                # verdict even if the scheduled tables hold a reproducible violation of the same tree. One more complete
+                # check without the end-to-end chains: only a violation it reproduces replaces the failure.
+                log("a violation seen in an end-to-end chain did not reproduce on a fresh pair (timing-dependent); checking once more without the end-to-end chains")
+                fam3 = dict(fam2, env=dict(fam2.get("env", {}), VERIF_NO_E2E="1"))
+                rc3, said3 = attempt(fam3)
+                if rc3 == 1:
+                    rc, said = rc3, said3
+                else:
+                    log("no reproducible violation without them either: the unreproduced end-to-end finding stands as an infrastructure failure")
+            sys.stdout.write(said)
+            sys.stdout.flush()
         except Exception as e:   # a crash of the driver is never a verdict
             import traceback
             print("INFRA-FAILURE property=%s driver exception: %s" % (prop, traceback.format_exc()[-2000:]), flush=True)
